@@ -49,6 +49,12 @@ def run(chk: core.Check, tier: str, seed: int) -> None:
         for lit in spellings:
             for t in (f"[{lit}]", f"[{lit[0]}x{lit[1:]}]", f"[{lit[:-1]}x{lit[-1]}]", f"..[{lit}]", f".z[{lit}, {lit}][0]"):
                 recs.append(impl.rec_find(jp, "$" + t, d, paths=True, edoc=ed))
+    # a root that is a string containing JSON text is a string (and so is such a string anywhere inside a document)
+    for sdoc in gen.JSON_TEXT_STRINGS:
+        for d in (sdoc, [sdoc], {"a": sdoc}):
+            ed = core.enc_value(d)
+            for t in ("", "[0]", ".a", "..*", "[*]", "[0][0]", ".a.a", "..[0]", "[:]"):
+                recs.append(impl.rec_find(jp, "$" + t, d, paths=True, edoc=ed))
     n_fixed = len(recs)
     # (2) seeded random queries over deeper documents, plain and nasty names
     n_rand = 6000 if tier == "quick" else 120000
